@@ -76,9 +76,8 @@ def mentions_cparam(f):
     return False
 
 
-def state_locals(body, loop_blocks):
-    """Locals assigned only constants (enum unit variants / bools), with at least one assignment inside the loop:
-    the loop-carried control state.  Returns {local: {"init": value, "values": set}}"""
+def _const_only_locals(body):
+    """locals all of whose (non-cleanup) definitions are constants: local -> [(bb, value)]"""
     out = {}
     for local, ds in body.defs().items():
         vals = []
@@ -89,19 +88,55 @@ def state_locals(body, loop_blocks):
             if kind != "rv":
                 ok = False
                 break
-            t = strip(body._rv_term(payload))
-            v = const_state_value(t)
+            v = const_state_value(strip(body._rv_term(payload)))
             if v is None:
                 ok = False
                 break
             vals.append((b, v))
+        if ok and vals:
+            out[local] = vals
+    return out
+
+
+def state_locals(body, loop_blocks):
+    """Loop-carried control state: locals whose every definition is a constant (enum unit variant / bool), directly or by
+    copying a temporary that itself only holds constants (`state = if c { A } else { B }`), with a definition inside the
+    loop (or in a break-exit block) and one before it.  Returns {local: {"init": [...], "values": set}}"""
+    consts = _const_only_locals(body)
+    out = {}
+    for local, ds in body.defs().items():
+        vals = []
+        ok = True
+        for (b, i, kind, payload) in ds:
+            if body.is_cleanup(b):
+                continue
+            if kind != "rv":
+                ok = False
+                break
+            v = const_state_value(strip(body._rv_term(payload)))
+            if v is not None:
+                vals.append((b, v))
+                continue
+            if payload["r"] == "use" and payload["op"]["o"] in ("copy", "move") and not payload["op"]["place"]["proj"] and payload["op"]["place"]["l"] in consts:
+                for (_, tv) in consts[payload["op"]["place"]["l"]]:
+                    vals.append((b, tv))
+                continue
+            ok = False
+            break
         if not ok or not vals:
             continue
         inside = [v for b, v in vals if b in loop_blocks]
         outside = [v for b, v in vals if b not in loop_blocks]
         if inside and len(outside) >= 1:
-            # drop flags are also bool locals assigned constants; keep only locals that are *read* by a switch
             out[local] = {"init": outside, "values": set(v for _, v in vals)}
+    # temporaries that only feed a state local are not state themselves
+    feeders = set()
+    for local in out:
+        for (b, i, kind, payload) in body.defs()[local]:
+            if kind == "rv" and payload["r"] == "use" and payload["op"]["o"] in ("copy", "move") and not payload["op"]["place"]["proj"]:
+                feeders.add(payload["op"]["place"]["l"])
+    for f_ in feeders:
+        out.pop(f_, None)
     return out
 
 
@@ -197,6 +232,7 @@ def loop_transitions(facts, summ, body, loop):
         pre = {}
         assign = {}
         effects = []
+        tmpenv = {}
         for a, b2 in zip(path, path[1:]):
             eg = body.edge_guards(a, b2)
             if eg is None or is_dropflag_cond(eg[0]) and switch_local(body, a) is None:
@@ -220,9 +256,15 @@ def loop_transitions(facts, summ, body, loop):
             if b2 == path[-1] and kind == "break" and len([p_ for p_ in body.preds()[b2] if not body.is_cleanup(p_)]) != 1:
                 continue  # a join block after the loop: not part of this iteration
             for s_ in body.blocks[b2]["stmts"]:
-                if s_["s"] == "assign" and not s_["place"]["proj"] and s_["place"]["l"] in st:
+                if s_["s"] == "assign" and not s_["place"]["proj"]:
                     v = const_state_value(strip(body._rv_term(s_["rv"])))
-                    assign[s_["place"]["l"]] = v
+                    rv_ = s_["rv"]
+                    if v is None and rv_["r"] == "use" and rv_["op"]["o"] in ("copy", "move") and not rv_["op"]["place"]["proj"]:
+                        v = tmpenv.get(rv_["op"]["place"]["l"])
+                    if v is not None:
+                        tmpenv[s_["place"]["l"]] = v
+                        if s_["place"]["l"] in st:
+                            assign[s_["place"]["l"]] = v
             tm = body.term(b2)
             if tm["t"] == "call" and b2 != nb:
                 pth = callee_name(tm["callee"]) if "path" in tm["callee"] else "?"
